@@ -122,5 +122,40 @@ pub fn run(out: &mut Out, rng: &mut Rng, thorough: bool) {
 			out.count("big_toml.not_produced");
 		}
 	}
+	// xt's own JSON / YAML / MessagePack output whose FIRST document is larger
+	// than 2 MiB (any bound a detection trial might put on what it reads), fed
+	// back through readers and as a slice.
+	let big_rows = Val::Seq(
+		(0..60_000)
+			.map(|i| Val::Map(vec![(Val::Str("id".into()), Val::Int(i as i128)), (Val::Str("name".into()), Val::Str(format!("row \"{i}\" \u{e9}: [x, y]"))), (Val::Str("tags".into()), Val::Seq(vec![Val::Bool(i % 2 == 0)]))]))
+			.collect(),
+	);
+	if let Some(js) = spell(Fmt::Json, &big_rows, &Spelling::plain()) {
+		for f in [Fmt::Json, Fmt::Yaml, Fmt::Msgpack] {
+			let produced = translate(&js, &Supply::Slice, Some(Fmt::Json), f);
+			if !produced.ok() || produced.output.len() <= 2 * 1024 * 1024 {
+				out.count("big_own_output.not_produced");
+				continue;
+			}
+			for supply in [Supply::Slice, Supply::Reader(vec![65536]), Supply::Reader(vec![4096]), Supply::Reader(vec![])] {
+				let det = detect(&produced.output, &supply);
+				out.eval("own_output_detected", &format!("big-{}-{}", f.name(), supply.describe()), true);
+				if det != Ok(Some(f)) {
+					out.fail(
+						"own_output_detected",
+						"",
+						format!("xt(json→{}) of 60 000 rows produced {} bytes (one document) which, supplied as {}, is detected as {:?}, not {}", f.name(), produced.output.len(), supply.describe(), det, f.name()),
+					);
+					continue;
+				}
+				let implicit = translate(&produced.output, &supply, None, Fmt::Msgpack);
+				let explicit = translate(&produced.output, &supply, Some(f), Fmt::Msgpack);
+				out.eval("pipe_eq_pipe_f", &format!("big-{}-{}", f.name(), supply.describe()), explicit.ok());
+				if implicit != explicit {
+					out.fail("pipe_eq_pipe_f", "", format!("xt -t {} output of {} bytes fed back ({}) to -t msgpack: without -f {} / with -f {}", f.name(), produced.output.len(), supply.describe(), if implicit.ok() { "ok".into() } else { format!("{:?}", implicit.result) }, if explicit.ok() { "ok".into() } else { format!("{:?}", explicit.result) }));
+				}
+			}
+		}
+	}
 	let _ = Val::Null;
 }
